@@ -85,8 +85,12 @@ class SDictArr(Sym):
     def __iter__(self):
         raise OutOfSubset('iteration over a symbolic dict needs a loop contract')
 
+    nonempty = None          # contracts set True/False when the code tests the dict's truthiness
+
     def __bool__(self):
-        raise OutOfSubset('truthiness of a symbolic dict (contract must say whether it is empty)')
+        if self.nonempty is None:
+            raise OutOfSubset('truthiness of a symbolic dict (contract must say whether it is empty)')
+        return self.nonempty
 
 
 class _View:
